@@ -149,6 +149,56 @@ def make_recorder():
     return RecordingTransport()
 
 
+def _odd_table() -> Dict[str, Any]:
+    import decimal
+    import fractions
+
+    import numpy as np
+
+    return {
+        "mixed_key_dict": lambda: {1: "x", "b": "y", "k": 2.0},
+        "tuple_key_dict": lambda: {(1, 2): 3.0},
+        "none_key_dict": lambda: {None: 1.0, "k": 2.0},
+        "bool_float_key_dict": lambda: {True: 1, 1.5: 2},
+        "set": lambda: {1.0, 2.0},
+        "frozenset": lambda: frozenset(["a"]),
+        "tuple": lambda: (1.0, (2.0, "x")),
+        "bytes": lambda: b"\xff\x00abc",
+        "complex": lambda: 1 + 2j,
+        "lone_surrogate": lambda: "caf\udce9",
+        "non_ascii": lambda: "na\u00efve \u00b5m \u6f22",
+        "big_int": lambda: 10 ** 400,
+        "decimal": lambda: decimal.Decimal("1.50"),
+        "fraction": lambda: fractions.Fraction(1, 3),
+        "nan_in_list": lambda: [1.0, float("nan")],
+        "inf_in_dict": lambda: {"k": float("inf")},
+        "numpy_array": lambda: np.array([1.0, 2.0, 3.0]),
+        "numpy_scalar": lambda: np.float32(2.5),
+        "numpy_int_key_dict": lambda: {np.int64(3): 1.0},
+        "range": lambda: range(3),
+        "deep_list": lambda: [[[[[[1.0]]]]]],
+        "long_string": lambda: "x" * 5000,
+        "empty_dict": lambda: {},
+        "nested_mixed": lambda: {"k": 2.0, "deep": [{"a": 1, 2: (3, 4)}]},
+    }
+
+
+ODD_NAMES = ["mixed_key_dict", "tuple_key_dict", "none_key_dict", "bool_float_key_dict", "set", "frozenset", "tuple", "bytes", "complex",
+             "lone_surrogate", "non_ascii", "big_int", "decimal", "fraction", "nan_in_list", "inf_in_dict", "numpy_array", "numpy_scalar",
+             "numpy_int_key_dict", "range", "deep_list", "long_string", "empty_dict", "nested_mixed"]
+
+
+def materialise_odd(obj: Any) -> Any:
+    """Replace {"$odd": name} markers (JSON-representable stand-ins in cases) by the Python value they name."""
+    if isinstance(obj, dict):
+        if set(obj) == {"$odd"}:
+            return _odd_table()[obj["$odd"]]()
+        return {k: materialise_odd(v) for k, v in obj.items()}
+    if isinstance(obj, list):
+        return [materialise_odd(v) for v in obj]
+    return obj
+
+
 def run_real(case: Dict[str, Any], trace: Any = None, pipeline: Any = None) -> Dict[str, Any]:
     """Execute the case through semantiva. Returns outcome, per-node published post-states, exception."""
     ensure_registered()
@@ -169,7 +219,7 @@ def run_real(case: Dict[str, Any], trace: Any = None, pipeline: Any = None) -> D
         return out
     import copy
 
-    ctx = copy.deepcopy(case.get("ctx") or {})
+    ctx = materialise_odd(copy.deepcopy(case.get("ctx") or {}))
     try:
         res = pipeline.process(Payload(build_data(case.get("data")), ctx))
         out.update(ok=True, data=norm_data(res.data), ctx=norm_ctx(res.context), published=rec.records,
